@@ -26,6 +26,9 @@ Definition shape_ok (inp : input) (n : name) : bool :=
   | LitExec, Some _ => true
   | _, _ => false
   end.
+(* some registered bind is expanding or literal_execute *)
+Definition has_postcompile (inp : input) : bool :=
+  existsb (fun n => negb (is_plain (kind_of inp n))) (i_order inp).
 Fixpoint nodupb (l : list name) : bool :=
   match l with [] => true | x :: r => negb (memb x r) && nodupb r end.
 
@@ -33,6 +36,8 @@ Definition guard (inp : input) : bool :=
   let order := i_order inp in
   (* every placeholder of the text belongs to a registered bind of the matching kind *)
   forallb (tok_ok inp) (i_toks inp)
+  (* the post-compile step runs when there is something for it to do *)
+  && implb (has_postcompile inp) (i_pc inp)
   (* distinct binds keep distinct names after escaping *)
   && forallb (fun a => forallb (fun b => implb (str_eqb (esc tab a) (esc tab b)) (str_eqb a b)) order) order
   (* a literal_execute bind has a name that needs no escaping *)
@@ -51,6 +56,7 @@ Definition guard (inp : input) : bool :=
 Record wf (inp : input) : Prop := {
   w_bind : forall n, In (Bind n) (i_toks inp) -> In n (i_order inp) /\ kind_of inp n = Plain;
   w_pc : forall n, In (PC n) (i_toks inp) -> In n (i_order inp) /\ kind_of inp n <> Plain;
+  w_haspc : has_postcompile inp = true -> i_pc inp = true;
   w_inj : forall a b, In a (i_order inp) -> In b (i_order inp) -> esc tab a = esc tab b -> a = b;
   w_lit : forall n, In n (i_order inp) -> kind_of inp n = LitExec -> needs_esc tab n = false;
   w_plain : forall n, In n (i_order inp) -> kind_of inp n = Plain -> exists v, dget n (i_params inp) = Some (PS v);
@@ -80,13 +86,15 @@ Proof.
   apply andb_true_iff in H. destruct H as [H G5].
   apply andb_true_iff in H. destruct H as [H G3].
   apply andb_true_iff in H. destruct H as [H G2].
-  apply andb_true_iff in H. destruct H as [G0 G1].
+  apply andb_true_iff in H. destruct H as [H G1].
+  apply andb_true_iff in H. destruct H as [G0 G6].
   rewrite forallb_forall in G0, G1, G2, G3, G4, G.
   constructor.
   - intros n Hn. specialize (G0 _ Hn). cbn [tok_ok] in G0. apply andb_true_iff in G0. destruct G0 as [A B].
     apply memb_In in A. split; [exact A|]. destruct (kind_of inp n); cbn in B; congruence.
   - intros n Hn. specialize (G0 _ Hn). cbn [tok_ok] in G0. apply andb_true_iff in G0. destruct G0 as [A B].
     apply memb_In in A. split; [exact A|]. destruct (kind_of inp n); cbn in B; congruence.
+  - intro Hp. rewrite Hp in G6. exact G6.
   - intros a b Ha Hb He. specialize (G1 _ Ha). rewrite forallb_forall in G1. specialize (G1 _ Hb).
     rewrite He, str_eqb_refl in G1. cbn [implb] in G1. apply str_eqb_eq. exact G1.
   - intros n Hn Hk. specialize (G2 _ Hn). rewrite Hk in G2. apply negb_true_iff in G2. exact G2.
